@@ -10,7 +10,7 @@ from .. import core, gens as G, exact as X, build as Bd
 from ..core import q, v2, v3, F
 from ..build import P2, V2, P3, V3
 from ladybug_geometry.geometry2d import Vector2D, Point2D
-from ladybug_geometry.geometry3d import Vector3D, Point3D
+from ladybug_geometry.geometry3d import Vector3D, Point3D, Face3D
 
 RULE = ('classes x {move,rotate,rotate_xy,reflect,scale} x random parameters (angle in [-4pi,4pi], k in [0.05,20], '
         'unit mirror normals); non-trivial = object not degenerate and parameter not the identity; distinct by '
@@ -179,6 +179,16 @@ def special_object(rng, cls):
 
 def check_one(ctx, rng, cls, op, special=False):
     o = special_object(rng, cls) if special and cls in ('Arc2D', 'Arc3D', 'Mesh2D', 'Mesh3D') else Bd.make(rng, cls)
+    tiny = None
+    if cls == 'Face3D' and op == 'scale' and rng.random() < 0.75:
+        # a small face (a few centimetres across) in a tilted plane: scaling it down leaves an area of 1e-5 .. 1e-3
+        fr = G.rational_frame(rng, special=False); og = G.rpt3(rng, 5.0)
+        bb = G.star_polygon(rng, n=rng.randint(3, 6), R=0.0625, center=(0.0, 0.0), bits=14)
+        try:
+            o = Face3D([P3(G.embed(fr, og, p)) for p in bb])
+            tiny = og
+        except Exception:
+            pass
     is3d = cls not in Bd.CLASSES_2D
     if not hasattr(o, op):
         return False
@@ -188,6 +198,8 @@ def check_one(ctx, rng, cls, op, special=False):
     args, pkey = gen_args(rng, op, is3d)
     if isvec:
         args = args[:-1]      # vectors: rotate(angle) / rotate(axis, angle) / reflect(normal): no origin
+    if tiny is not None:
+        args = [rng.choice([0.05, 0.0625, 0.05, 0.125, 4.0]), P3(tiny)]      # scaled about a point next to the face
     if special:
         # the special member is transformed both cold (nothing read yet) and warm (after it has answered its properties)
         evaluate(ctx, cls, op, o, args, pkey, warm=False)
